@@ -445,7 +445,17 @@ fn main() {
     let chunks: Vec<Vec<&String>> = (0..jobs).map(|j| strings.iter().skip(j).step_by(jobs).collect()).collect();
     let mut stats = Stats::new();
     // many-line texts: line numbers that change their number of digits inside one span
-    let many: Vec<String> = [8usize, 9, 10, 11, 99, 100, 101].iter().flat_map(|n| vec!["x\n".repeat(*n), format!("{}é", "a\n".repeat(*n)), format!("\r\n{}", "\n".repeat(*n))]).collect();
+    let mut many: Vec<String> = [8usize, 9, 10, 11, 99, 100, 101].iter().flat_map(|n| vec!["x\n".repeat(*n), format!("{}é", "a\n".repeat(*n)), format!("\r\n{}", "\n".repeat(*n))]).collect();
+    // code points that tools like to treat specially (byte order mark, NUL, line / paragraph separator,
+    // NEL, zero-width joiner) are ordinary characters for line/column purposes: in front of, inside and
+    // at the end of every short string
+    for sp in ['\u{feff}', '\0', '\u{2028}', '\u{2029}', '\u{85}', '\u{200d}'] {
+        for base in all_strings(3) {
+            many.push(format!("{sp}{base}"));
+            many.push(format!("{base}{sp}"));
+            many.push(format!("{base}{sp}{base}"));
+        }
+    }
     let many_parts: Vec<Stats> = std::thread::scope(|sc| {
         let hs: Vec<_> = many
             .iter()
